@@ -210,7 +210,7 @@ def shard_malformed(args):
 def run(tier, seed, procs):
     quick = tier == 'quick'
     N, M, K = (3, 3, 3) if quick else (5, 5, 4)
-    tasks = [(MOD, n, lay, K) for n in range(0, N + 1) for lay in ('none', 'mixed', 'anon')]
+    tasks = [(MOD, n, lay, K) for n in range(0, N + 1) for lay in ('none', 'mixed', 'anon', 'twins')]
     cols = drive.pool_map(drive.shard_enum_story, tasks, procs)
     refs = ['TGT', '', 'ZZ-unknown-story']
     tasks = [(MOD, m, pl, K, pos, refs) for m in range(0, M + 1) for pl in ('none', 'mixed') for pos in (0, 1)]
